@@ -320,7 +320,7 @@ def quiet(f, *a, **k):
         return f(*a, **k)
 
 
-EXN_CODES = {"FileNotFoundError": 2, "EOFError": 3, "UnpicklingError": 3, "JSONDecodeError": 3, "EmptyDataError": 3,
+EXN_CODES = {"InconsistentCheckpointError": 12, "FileNotFoundError": 2, "EOFError": 3, "UnpicklingError": 3, "JSONDecodeError": 3, "EmptyDataError": 3,
              "ParserError": 3, "KeyError": 4, "SchemaVersionMismatchError": 9, "OperationalError": 10}
 
 
